@@ -75,6 +75,10 @@ func labelSels() []*kv.LabelSel {
 		{ME: []kv.LSReq{{Key: "l", Op: "In", Vals: []string{"1", "2"}}}},
 		{ME: []kv.LSReq{{Key: "l", Op: "In", Vals: []string{"2", "1"}}}},
 		{ME: []kv.LSReq{{Key: "l", Op: "NotIn", Vals: []string{"1"}}}},
+		{ME: []kv.LSReq{{Key: "l", Op: "In", Vals: []string{"1"}}}},
+		{ME: []kv.LSReq{{Key: "l", Op: "In", Vals: []string{"2"}}}},
+		{ME: []kv.LSReq{{Key: "l", Op: "NotIn", Vals: []string{"1", "2"}}}},
+		{ME: []kv.LSReq{{Key: "l", Op: "In", Vals: []string{"1", "2", "q"}}}},
 		{ME: []kv.LSReq{{Key: "t", Op: "Exists"}}},
 		{ME: []kv.LSReq{{Key: "t", Op: "DoesNotExist"}}},
 		{ML: map[string]string{"l": "1"}, ME: []kv.LSReq{{Key: "t", Op: "Exists"}, {Key: "l", Op: "NotIn", Vals: []string{"2"}}}},
@@ -314,6 +318,21 @@ func filterdiff(w *bufio.Writer, seed uint64, tier string, stats map[string]int)
 	for _, t := range wl {
 		if p, ok := permute(r, t); ok {
 			emitEq("eqperm", t, p)
+		}
+	}
+	// composites with repeated / swapped / replaced children (order matters, multiplicity matters)
+	small := []kv.Term{leaves[0], leaves[1], leaves[3], leaves[4], leaves[14], leaves[20], leaves[22], leaves[len(leaves)-1]}
+	for _, op := range []string{"and", "or"} {
+		for _, x := range small {
+			for _, y := range small {
+				xx := kv.Term{Op: op, Kids: []kv.Term{x, x}}
+				xy := kv.Term{Op: op, Kids: []kv.Term{x, y}}
+				yx := kv.Term{Op: op, Kids: []kv.Term{y, x}}
+				emitEq("eq", xx, xy)
+				emitEq("eq", xy, xx)
+				emitEq("eq", xy, yx)
+				emitEq("eq", kv.Term{Op: "not", Kids: []kv.Term{xx}}, kv.Term{Op: "not", Kids: []kv.Term{xy}})
+			}
 		}
 	}
 	// nil handling of FiltersEqual
